@@ -293,12 +293,14 @@ class Intercept:
     call), ret (deep copy), frame (selected caller locals, deep copies) )
     """
 
-    def __init__(self, module, names, frame_vars=(), keep_args=True, on_event=None, copy_ret=True):
+    def __init__(self, module, names, frame_vars=(), keep_args=True, on_event=None, copy_ret=True, on_call=None, copy_args=True):
         self.module = module
         self.names = [n for n in names]
         self.frame_vars = tuple(frame_vars)
         self.keep_args = keep_args
         self.on_event = on_event
+        self.on_call = on_call
+        self.copy_args = copy_args
         self.copy_ret = copy_ret
         self.events = []
         self.calls = {n: 0 for n in self.names}
@@ -335,7 +337,10 @@ class Intercept:
                     try:
                         ba = sig.bind(*args, **kwargs)
                         ba.apply_defaults()
-                        ev["args"] = {k: deep(v) for k, v in ba.arguments.items() if k != "sf" and k != "logger"}
+                        if me.copy_args:
+                            ev["args"] = {k: deep(v) for k, v in ba.arguments.items() if k != "sf" and k != "logger"}
+                        else:
+                            ev["args"] = None
                         ev["live"] = dict(ba.arguments)
                     except TypeError:
                         ev["args"] = None
@@ -346,6 +351,8 @@ class Intercept:
                 loc = fr.f_locals
                 ev["frame_fn"] = fr.f_code.co_name
                 ev["frame"] = {k: deep(loc[k]) for k in me.frame_vars if k in loc}
+            if me.on_call is not None:
+                me.on_call(ev)
             try:
                 ret = orig(*args, **kwargs)
             except BaseException as e:
